@@ -109,6 +109,16 @@ def lockstep_read(ctx, t, blocks, what, stats):
     if t.san: impl.update(run_chunks(t.san, san_b, t.work, what + "-san", ["--scratch", t.work], env=ENV))
     if pl_b and t.plain: impl.update(run_chunks(t.plain, pl_b, t.work, what + "-plain", ["--scratch", t.work]))
     model = run_chunks(t.model, blocks, t.work, what + "-model") if t.model else {}
+    # allocation class: where the model reports an allocation failure for a case that ran on the sanitized build (whose
+    # allocator aborts or maps tens of GB instead of throwing), the real reader is run again on the unsanitized build under
+    # RLIMIT_AS = the model's limit, and that result is the one compared
+    again = [(cid, blk.replace(" api=", " aslimit=4096 api=", 1)) for (cid, blk) in san_b
+             if (model.get(cid) or [""])[0].startswith("result=exn:") and not (impl.get(cid) or [""])[0].startswith("result=exn:")]
+    if again:
+        if t.plain is None: t.plain = fw.build_harness(ctx, "plain", "run_ascii")
+        if t.plain:
+            impl.update(run_chunks(t.plain, again, t.work, what + "-plain2", ["--scratch", t.work]))
+            stats["rerun_plain"] = stats.get("rerun_plain", 0) + len(again)
     for side, d in (("harness", impl), ("model driver", model)):
         if "__errors__" in d:
             ctx.broken.append({"kind": "correspondence", "name": "ascii %s: %s exited abnormally" % (what, side), "detail": d.pop("__errors__")[:3]})
